@@ -312,9 +312,10 @@ def hStartStageCore (c : Cfg) (s : State) (id i retry : Nat) : List Txn :=
     else [[.push (.startStage i (retry + 1))]]
 
 /-- `StartStageHandler.handle`; F26 repair: once a cancel is durable nothing new starts (the CancelStage fan-out
-    settles the stage), the message is only acknowledged -/
+    settles the stage), the message is only acknowledged; F37 repair: the same once the workflow has a final status
+    (recovery no longer looks at it, a stage claimed then would stay RUNNING if the worker died before planning) -/
 def hStartStage (c : Cfg) (s : State) (id i retry : Nat) : List Txn :=
-  if s.canceled && (s.stage i).status == .notStarted then [] else hStartStageCore c s id i retry
+  if (s.canceled || s.wfStatus.isComplete) && (s.stage i).status == .notStarted then [] else hStartStageCore c s id i retry
 
 def hStartTask (_c : Cfg) (s : State) (id i t : Nat) : List Txn :=
   let st := s.stage i
